@@ -34,7 +34,7 @@ def plan(tier, seed):
 def make_case(spec, i):
     info = catalog.info(spec["cls"])
     r = gen.rng_for(spec["seed"], "C01", spec["cls"], spec["cfg"], spec["stratum"], i)
-    g = gen.G(r, attr=info.attr, collide=spec["stratum"] == "collide")
+    g = gen.G(r, attr=info.attr, collide=spec["stratum"] == "collide", surrogates=info.backend == "json")
     depth = 3 if spec["tier"] == "quick" else r.choice([3, 4])
     init = MISSING if r.random() < 0.12 else g.shape(info.kind, depth)
     ms = ModelState(info.kind, [init])
